@@ -208,6 +208,11 @@ pub fn eval(case: &Case) -> CaseOut {
     if run.trace.has("fault_fired") {
         out.classes.insert("cases_with_fault_fired".into(), 1);
     }
+    for k in ["write_failed_with_injected_fault_then_retried", "write_survived_injected_fault", "flush_failed_with_injected_fault_then_retried", "flush_survived_injected_fault"] {
+        if run.trace.has(k) {
+            out.classes.insert(format!("cases_with_{}", k), 1);
+        }
+    }
     let _ = session::NSLOTS;
     out
 }
@@ -293,6 +298,72 @@ pub fn run(tier: Tier, seed: u64) -> i32 {
             }
             agg
         }));
+    }
+    // a transient fault at every device call of one write (an overwrite that crosses a cluster boundary inside the
+    // chain, an append that needs a new cluster, the first write of an empty file, a write inside a cluster), the
+    // caller repeating the write if the error is reported; then a flush: the flush point holds like any other
+    if !rep.failed() {
+        let mut vols: Vec<crate::vol::VolCfg> = [1usize, 8, 12].iter().map(|p| crate::vol::VolCfg::from_preset(*p)).collect();
+        if tier == Tier::Thorough {
+            vols.push(crate::vol::VolCfg::from_preset(5));
+            vols.push(crate::vol::VolCfg::from_preset(3));
+        }
+        let shapes: usize = 5;
+        let b = run::run_indexed("transient_fault_at_every_device_call_of_one_write_then_flush", (vols.len() * shapes * 2) as u64, |i, blk| {
+            let intr = i % 2 == 1;
+            let i = i as usize / 2;
+            let v = &vols[i / shapes];
+            let cs = v.cluster_size();
+            let shape = i % shapes;
+            for k in 0..200u16 {
+                let mut ops = vec![
+                    Op::CreateFile { via: 0, path: "other.bin".into(), keep: 2 },
+                    Op::Write { h: 1, len: cs, seed: 9 },
+                    Op::Write { h: 1, len: 3, seed: 8 },
+                    Op::CloseFile { h: 1 },
+                    Op::CreateFile { via: 0, path: "target file.bin".into(), keep: 1 },
+                ];
+                if shape != 2 {
+                    // (a write call transfers at most one cluster: three calls make the three-cluster file)
+                    for j in 0..3u8 {
+                        ops.push(Op::Write { h: 0, len: cs, seed: 1 + j });
+                    }
+                    ops.push(Op::Flush { h: 0 });
+                }
+                // (one write call transfers at most up to the end of the cluster it starts in: the cluster lookup / the
+                // allocation belongs to the call that STARTS on a boundary)
+                let (seek_to, len) = match shape {
+                    0 => (cs as i64, 40u32),                // starts on the first boundary inside the chain: lookup of the next cluster
+                    1 => (3 * cs as i64, 5),               // starts at the end of the chain: a new cluster is allocated and linked
+                    2 => (0, 7),                            // first write of an empty file: first cluster
+                    3 => (cs as i64 + 9, 20),              // inside the second cluster
+                    _ => (2 * cs as i64, cs),              // a whole cluster, starting on the last boundary inside the chain
+                };
+                ops.push(Op::Seek { h: 0, whence: 0, off: seek_to });
+                ops.push(Op::WriteRetry { h: 0, len, seed: 5, k, interrupted: intr });
+                ops.push(Op::Flush { h: 0 });
+                // something else happens afterwards; the crash points lie behind the flush
+                ops.push(Op::CreateFile { via: 0, path: "later.txt".into(), keep: 2 });
+                ops.push(Op::Write { h: 1, len: 30, seed: 3 });
+                ops.push(Op::CloseFile { h: 1 });
+                let case = Case { vol: v.clone(), ops };
+                let mut out = eval(&case);
+                let retried = out.classes.contains_key("cases_with_write_failed_with_injected_fault_then_retried");
+                let survived = out.classes.contains_key("cases_with_write_survived_injected_fault");
+                out.nontrivial = retried || survived;
+                out.hash = run::hash_str(&format!("wfault|{}|{}|{}|{:?}", shape, k, intr, v));
+                blk.record(&out, || serde_json::json!({"shape": shape, "fault_at_device_call": k, "interrupted": intr, "vol": v}));
+                if let Some(m) = out.violation {
+                    return Some(Failure { message: format!("transient {} at device call {} of a write (shape {}), then flush: {}", if intr { "'interrupted' condition" } else { "fault" }, k, shape, m), case: serde_json::to_value(&case).unwrap(), kind: "crash".into() });
+                }
+                if !retried && !survived {
+                    // k is past the last device call of the write
+                    break;
+                }
+            }
+            None
+        });
+        rep.add(b);
     }
     rep.finish()
 }
